@@ -384,6 +384,10 @@ def c05(ctx, api):
                                          cfg(constants={'Emit': 'TRUE', 'Prop': '"C05"', 'Big': tb(thorough)}), timeout=3000)
     acc.add('GenArith: all ordered pairs of the operand pool x 12 binary operators (4 ways of supplying the operands) + sum, avg + unary family',
             st, summ)
+    sizes = '{127, 128, 129, 255, 256, 257, 1000, 4096, 10000, 20000}' if thorough else '{127, 128, 129, 1000, 10000}'
+    st, summ = api['run_tlc_to_harness'](ctx, 'bigarr', 'GenBigArr', cfg(constants={'Emit': 'TRUE', 'Prop': '"C05"', 'Sizes': sizes}), timeout=1500)
+    acc.add('GenBigArr: sum / avg / max / min / sort / sort_by on %s consecutive integers around 0, 2^53 and 10^15 in 6 Go carriers; '
+            'expected values are closed forms computed by Decimal.tla (checked against Eval on small instances)' % sizes, st, summ)
     return acc.result(RULE_PINNED + '; results needing more than 34 digits admit exactly two values (truncation and truncation + 1 ulp) and count as unpinned',
                       extra={'model_checks': ['SmallLaws', 'BigLaws (thorough)', 'Commutative', 'CmpAntisymmetric']})
 
@@ -533,6 +537,9 @@ def c14(ctx, api):
             '(expected outcome from Decimal.tla)', st2, summ2)
     st3, summ3 = api['run_tlc_to_harness'](ctx, 'intarg', 'GenIntArg', cfg(constants={'Emit': 'TRUE', 'Prop': '"C14"'}), timeout=1500)
     acc.add('GenIntArg: integer arguments in every numeric spelling', st3, summ3)
+    sizes = '{127, 128, 129, 255, 256, 257, 1000, 4096, 10000, 20000}' if thorough else '{127, 128, 129, 1000, 10000}'
+    st4, summ4 = api['run_tlc_to_harness'](ctx, 'bigarr', 'GenBigArr', cfg(constants={'Emit': 'TRUE', 'Prop': '"C14"', 'Sizes': sizes}), timeout=1500)
+    acc.add('GenBigArr: large arrays of consecutive integers around 2^53 held as json / int64 / uint64 / decimal / float64 / int', st4, summ4)
     return acc.result(RULE_PINNED + '; assignments whose Go kind cannot hold a value exactly are skipped (counted in cases_skipped)',
                       extra={'cases_skipped_carrier_cannot_hold_value': sum(s.get('skipped', 0) for s in [summ])})
 
